@@ -294,10 +294,59 @@ def run_case(inp):
     return viols
 
 
+def run_maskdtype(inp):
+    """A binary mask is the same mask whether it is given as bool, uint8 or float32 — with and without a rotation
+    search, for one and for several templates; a sub-volume identical to the template scores 1 under it."""
+    from scipy import ndimage as ndi
+    from scipy.spatial.transform import Rotation
+    from props.C05 import _models
+    viols = []
+
+    def V(clause, desc):
+        viols.append({"clause": clause, "desc": desc, "input": dict(inp)})
+
+    r = np.random.default_rng(inp["seed"])
+    n = int(inp["n"])
+    tmpl = ndi.gaussian_filter(r.normal(size=(n, n, n)), 1.0).astype(np.float32)
+    other = ndi.gaussian_filter(r.normal(size=(n, n, n)), 1.0).astype(np.float32)
+    zz, yy, xx = np.indices((n, n, n)) - (n - 1) / 2
+    binary = (zz ** 2 + yy ** 2 + xx ** 2) <= (n / 2 - 1) ** 2
+    quat, pos = np.array([0, 0, 0, 1], dtype=np.float32), np.zeros(3, dtype=np.float32)
+    kw = {}
+    if inp["rotations"]:
+        kw["rotations"] = [Rotation.identity(), Rotation.from_euler("z", 90, degrees=True), Rotation.from_euler("y", 90, degrees=True)]
+    tin = [other, tmpl] if inp["two_templates"] else tmpl
+    M = _models()[inp["model"]]
+    res = {}
+    for dt in ("float32", "bool", "uint8", "callable-bool"):
+        mk = (lambda t: binary) if dt == "callable-bool" else binary.astype(dt)
+        try:
+            m = M(tin, mk, **kw)
+            a = m.align(tmpl, (1.0, 1.0, 1.0), quat, pos)
+            res[dt] = (float(a.score), [float(v) for v in a.shift], int(a.label))
+        except Exception as e:  # noqa: BLE001
+            V("no-error", f"binary mask given as {dt}: {type(e).__name__}: {str(e)[:100]}")
+            return viols
+    ref = res["float32"]
+    # (with a rotation search the mask bank is resampled without prefilter, i.e. smoothed: the identity candidate then
+    # scores about 0.95, not 1 - C07 does not speak about rotation searches, so "scores 1" is only required without one)
+    if inp["model"] in ("ZNCC", "NCC") and not inp["rotations"] and abs(ref[0] - 1.0) > 1e-3:
+        V("self", f"{inp['model']} with a binary float32 mask: identical sub-volume scores {ref[0]:.4f}")
+    for dt, got in res.items():
+        if abs(got[0] - ref[0]) > 1e-5 * (1 + abs(ref[0])) or np.abs(np.array(got[1]) - np.array(ref[1])).max() > 1e-6 or got[2] != ref[2]:
+            V("mask-dtype", f"{inp['model']} (rotations={inp['rotations']}, {'two templates' if inp['two_templates'] else 'one template'}): the "
+                            f"binary mask given as {dt} gives score {got[0]:.6g}, shift {got[1]}, label {got[2]}; as float32 "
+                            f"{ref[0]:.6g}, {ref[1]}, {ref[2]}")
+    return viols
+
+
 def oracle(rng, thorough, deep=False, hints=None):
     from scipy.spatial.transform import Rotation
     big = thorough or deep
     cases = []
+    for it in range(8 if big else 4):
+        cases.append(dict(kind="maskdtype", n=int([9, 10][it % 2]), model=["ZNCC", "NCC", "ZNCC", "PCC"][it % 4], rotations=bool(it % 2 == 0),
+                          two_templates=bool(it % 4 >= 2), seed=int(rng.integers(0, 10 ** 6))))
     shapes = [(8, 8, 8), (9, 9, 9), (8, 9, 10), (7, 11, 9), (6, 6, 7)]
     n = 14 if big else 4
     for it in range(n):
@@ -326,10 +375,13 @@ def oracle(rng, thorough, deep=False, hints=None):
     viols, stats = [], {"by_kind": {}, "samples": [{"oracle_case": c} for c in cases[:2]]}
     for c in cases:
         stats["by_kind"][c["kind"]] = stats["by_kind"].get(c["kind"], 0) + 1
-        viols += run_case(c)
+        viols += run_maskdtype(c) if c["kind"] == "maskdtype" else run_case(c)
     return len(cases), viols, stats
 
 
 def replay(payload):
+    if payload["input"].get("kind") == "maskdtype":
+        v = run_maskdtype(dict(payload["input"]))
+        return {"violated": bool(v), "violations": v}
     v = run_case(dict(payload["input"]))
     return {"violated": bool(v), "violations": v}
